@@ -6,6 +6,9 @@ C04-a  completeness and exact length: ranges are requested only while chunks are
 C04-b  nothing present is fetched again: scan and (when a source is given) copy precede the first range
        request; the range is recomputed inside the loop.
 C04-c  the match guard of zck_copy_chunks (C08-b) and the extents of range_add (C10-b).
+C04-e  every range request of the fetch loop is made with fail_no_ranges set on the download context, so that a 200
+       answer (whole file instead of the ranges) aborts and is retried with fewer ranges instead of being fed to the
+       range write callback.
 C04-d  the update loop reuses one zckDL: zck_dl_reset() resets every field the callbacks both read and write.
 Declined: byte identity of the result and exactness of the bytes requested against a real server.
 """
@@ -26,7 +29,8 @@ def run(ctx):
     for config in ctx.configs():
         prog = ctx.prog(config)
         dlmain.check_protocol(ck, prog, config, {'loop-condition': 'C04-a', 'complete': 'C04-a', 'truncate': 'C04-a',
-                                                 'gate': 'C04-a', 'scan-first': 'C04-b', 'copy-first': 'C04-b'})
+                                                 'gate': 'C04-a', 'scan-first': 'C04-b', 'copy-first': 'C04-b',
+                                                 'reject-200': 'C04-e'})
         dlmain.check_dl_errors(ck, prog, config, 'C04-a')
         # the range is recomputed inside the fetch loop
         fn = dlmain.dl_main(prog)
@@ -54,11 +58,15 @@ CLAIM = {
     'text': 'static analysis: decides C04-a..c (protocol order) - scan and copy precede every range request, ranges '
             'are requested only while chunks are missing, fetch failures exit non-zero, and exit status 0 is reachable '
             'only with no chunk missing, through a whole-file checksum gate and after truncating the target to the '
-            'new length. Byte identity against a server is not decided. C04-d: the update loop\'s zck_dl_reset() resets every per-request field.',
+            'new length. Byte identity against a server is not decided. C04-d: the update loop\'s zck_dl_reset() resets every per-request field. C04-e: range requests reject a 200 answer.',
     'note': 'trusted: clang 14 front end; libcurl; facts are per path (no join)',
 }
 
 MUTANTS = [
+    {'id': 'm04e', 'desc': 'range requests honour the command-line flag instead of always rejecting 200 (seeded c04r4)',
+     'file': 'src/zck_dl.c', 'old': """        dl_ctx.max_ranges = range_attempt[0];
+        dl_ctx.fail_no_ranges = 1;""", 'new': """        dl_ctx.max_ranges = range_attempt[0];
+        dl_ctx.fail_no_ranges = arguments.fail_no_ranges;""", 'expect': 'R2.protocol zckdl main [reject-200]'},
     {'id': 'm23', 'desc': 'copy after the fetch loop', 'file': 'src/zck_dl.c',
      'old': """        if(zck_src && !zck_copy_chunks(zck_src, zck_tgt)) {
             exit_val = 10;
